@@ -368,13 +368,17 @@ def body(ctx, kinds=("a1t0s0", "a1t1s0", "a1t0s1", "a1t1s1"), n=None, profiles=N
     spec = {p.pid: (o.split("\t", 1)[1] if "\t" in o else o) for p, o in zip(progs, outs)}
     # the semantics of the model-generated async code (canonical schedule) must be that reference: `sync_refines` on concrete
     # programs, for the async kinds it covers (the non-try ones)
-    cov = [(p, r) for p, r in zip(progs, reals) if not p.is_try()]
+    # (non-try kinds: the reference is the sync counterpart's; try kinds: `specRunAT`, asked for with the async kind itself)
+    cov = list(zip(progs, reals))
     runs = k1.run_driver(["RUN\t%s\t%s\t%s\t%s" % (p.pid, p.kind, r.structure, p.world()) for p, r in cov]) if cov else []
+    ref_at = k1.run_driver(["SPEC\t%s\t%s\t%s\t%s" % (p.pid, p.kind, r.structure, p.world()) for p, r in cov if p.is_try()])
+    ref_at = dict(zip([p.pid for p, r in cov if p.is_try()], [(o.split("\t", 1)[1] if "\t" in o else o) for o in ref_at]))
     for (p, r), o in zip(cov, runs):
         line = o.split("\t", 1)[1] if "\t" in o else o
-        if line != spec[p.pid]:
+        if line != (ref_at[p.pid] if p.is_try() else spec[p.pid]):
             ctx.broken.append(("refinement on a concrete async program (Sem(gen p) under the canonical schedule vs reference)",
-                               {"program": "%s! { %s }" % (p.name, p.macro_input()), "model_code_semantics": line[:600], "reference": spec[p.pid][:600]}))
+                               {"program": "%s! { %s }" % (p.name, p.macro_input()), "model_code_semantics": line[:600],
+                                "reference": (ref_at[p.pid] if p.is_try() else spec[p.pid])[:600]}))
             break
     ctx.out.coverage["async_model_runs_compared"] = ctx.out.coverage.get("async_model_runs_compared", 0) + len(cov)
     # the poll-level model (Async.lean / AsyncSpec.lean): its predicted events per poll under this gate schedule, for the
